@@ -26,6 +26,8 @@ func main() {
 		err = genPhout(os.Args[2], os.Args[3])
 	case "schema":
 		err = genSchema(os.Args[2], os.Args[3])
+	case "tags":
+		err = genTags(os.Args[2], os.Args[3])
 	default:
 		err = fmt.Errorf("unknown translator %q", os.Args[1])
 	}
